@@ -23,8 +23,55 @@ func (core *JApiCore) compileCatalog() *jerr.JApiError {
 	return core.setPathVariablesToCatalog()
 }
 
+// userTypesForPathVariables returns the JSight user types read anew and not
+// compiled, like the schema of a Path directive: the path variables are put
+// together from nodes of these schemas and compiled as a whole afterwards. A
+// node of a type which is compiled already would lose its "type" and "or"
+// rules on the way.
+func (core *JApiCore) userTypesForPathVariables() map[string]*jschema.JSchema {
+	compiled := core.UserTypesData()
+	ut := make(map[string]*jschema.JSchema, len(compiled))
+	for k, v := range compiled {
+		ut[k] = v
+		d := core.rawUserTypes.GetValue(k)
+		if d == nil || !d.BodyCoords.IsSet() {
+			continue
+		}
+		if s, err := newPathVariablesSchema(d.BodyCoords.Read(), compiled, core.rules); err == nil {
+			ut[k] = s.JSchema
+		}
+	}
+	return ut
+}
+
+// typesOfPathSchema returns the unnamed types of the schema of a Path directive
+// and of the user types which its root refers to.
+func typesOfPathSchema(s *jschema.JSchema, ut map[string]*jschema.JSchema) map[string]ischema.Type {
+	types := make(map[string]ischema.Type)
+	visited := map[string]struct{}{}
+	var collect func(s *jschema.JSchema)
+	collect = func(s *jschema.JSchema) {
+		for k, v := range s.InnerTypesList() {
+			if _, ok := types[k]; !ok {
+				types[k] = v
+			}
+		}
+		for _, name := range jschema.UserTypeNamesFromEachTypeConstraint(s.Inner.RootNode()) {
+			if _, ok := visited[name]; ok {
+				continue
+			}
+			visited[name] = struct{}{}
+			if ss, ok := ut[name]; ok {
+				collect(ss)
+			}
+		}
+	}
+	collect(s)
+	return types
+}
+
 func (core *JApiCore) collectPiecesOfPathVariables() *jerr.JApiError {
-	ut := core.UserTypesData()
+	var ut map[string]*jschema.JSchema
 
 	for i := 0; i < len(core.rawPathVariables); i++ {
 		var schemaProps map[string]ischema.Node
@@ -37,8 +84,11 @@ func (core *JApiCore) collectPiecesOfPathVariables() *jerr.JApiError {
 			obj := catalog.JSchemaObject{
 				JSchema: core.rawPathVariables[i].schema,
 			}
+			if ut == nil {
+				ut = core.userTypesForPathVariables()
+			}
 			schemaProps = obj.ObjectFirstLevelProperties(ut)
-			types = core.rawPathVariables[i].schema.InnerTypesList()
+			types = typesOfPathSchema(core.rawPathVariables[i].schema, ut)
 		}
 
 		// imitated piece should not participate in duplicate definition validation
